@@ -41,6 +41,9 @@ const rule = "distinct_nontrivial = sequential scripts that reached growth, a wr
 
 func main() {
 	r := vlib.Start("C16", "exploration")
+	if r.Quick() {
+		linTimeout = 8 * time.Second
+	}
 	c := &ctx{r: r, ko: newKeyOracle(), lo: 0, hi: 100}
 	if s := os.Getenv("C16_SHARE"); s != "" {
 		if a, b, ok := strings.Cut(s, ":"); ok {
@@ -122,8 +125,14 @@ func parent(c *ctx) {
 	for _, p := range prefixes {
 		r.ScanRaceLogs(p)
 	}
-	if u, h := r.Counter("lin_unknown"), r.Counter("lin_histories"); u*20 > h {
-		r.Inconclusive(fmt.Sprintf("porcupine timed out on %d of %d histories (more than 5%%)", u, h))
+	// too many unjudged histories => inconclusive (5% thorough; 20% quick, where the
+	// checker budget is short and the absolute minimum lin_ok is Required below)
+	lim := int64(20)
+	if r.Quick() {
+		lim = 5
+	}
+	if u, h := r.Counter("lin_unknown"), r.Counter("lin_histories"); u*lim > h {
+		r.Inconclusive(fmt.Sprintf("porcupine timed out on %d of %d histories (more than 1/%d)", u, h, lim))
 	}
 	r.Note("gomaxprocs_sweep", []string{"2", "6", fmt.Sprint(runtime.GOMAXPROCS(0))})
 
@@ -274,7 +283,9 @@ func phaseSeq(c *ctx) {
 
 // ---------------------------------------------------------------- phase: concurrent
 
-const linTimeout = 30 * time.Second
+// per-history checker budget; a timeout is "not judged", never a violation. Short in
+// the quick tier so a loaded machine wastes little on the few hard histories.
+var linTimeout = 30 * time.Second
 
 func judgeLin(c *ctx, res *linResult) {
 	r := c.r
@@ -326,7 +337,7 @@ func phaseConc(c *ctx) {
 
 	// (2) linearizability: histories run one at a time (they want the cores);
 	// the checker runs behind them on a small pool
-	nLin := map[string]int{"cache": r.N(260, 4000), "segment": r.N(130, 2000), "sync": r.N(80, 1200)}
+	nLin := map[string]int{"cache": r.N(130, 4000), "segment": r.N(70, 2000), "sync": r.N(40, 1200)}
 	checkCh := make(chan *linResult, 64)
 	var cwg sync.WaitGroup
 	for w := 0; w < 3; w++ {
@@ -355,7 +366,7 @@ func phaseConc(c *ctx) {
 	defer cwg.Wait() // the checker finishes behind the remaining phases
 
 	// (3) over capacity
-	nEv := r.N(24, 240)
+	nEv := r.N(14, 240)
 	for i := 0; i < nEv; i++ {
 		if !c.mine(i, nEv) {
 			continue
@@ -390,7 +401,7 @@ func phaseConc(c *ctx) {
 	}
 
 	// (4) no global lock
-	nNL := r.N(40, 400)
+	nNL := r.N(24, 400)
 	for i := 0; i < nNL; i++ {
 		if !c.mine(i, nNL) {
 			continue
@@ -429,7 +440,7 @@ func phaseConc(c *ctx) {
 			}
 		}
 	}
-	nCl := r.N(10, 100)
+	nCl := r.N(6, 100)
 	for i := 0; i < nCl; i++ {
 		if !c.mine(i, nCl) {
 			continue
